@@ -173,7 +173,8 @@ def scenario_traces(ctx, plan):
         steps = tm_scenarios.ALL[name]()
         ov = tm_scenarios.CFG.get(name)
         cfg = base if not ov else tm.Cfg('scen-n4-' + name[:12], [1, 1, 1, 1], [4], max_round=ov.get('max_round', 3), max_height=1,
-                                         nbyz=1, budget=-1, own_first=False, useful_only=False)
+                                         nbyz=1, budget=-1, own_first=False, useful_only=False,
+                                         crashes=ov.get('crashes', 0), crash_set=ov.get('crash_set', ()))
         d = tempfile.mkdtemp(prefix='vscen-')
         try:
             tr = {'id': 'free-' + name, 'cfg': {'Power': cfg.power, 'Byz': cfg.byz, 'MaxRound': cfg.max_round, 'MaxHeight': cfg.max_height},
